@@ -30,7 +30,12 @@ META = {
                   "support only; TESTED per run, not proved: the recorded call protocol (one choice call with p = lengths/areas normalised "
                   "whenever there are >= 2 edges/faces, every sample on the edge/face drawn for it), 200-draw runs in which every "
                   "edge/face of share >= 8 % must be hit, value semantics of evaluate/exports (results edited in place by the "
-                  "caller must not change later evaluations), stale or colliding mesh attributes. Defects #36/#37/#38 were repaired by fix: commits; the theorems are about the repaired code.",
+                  "caller must not change later evaluations), stale or colliding mesh attributes, call forms (positional / keyword / optional arguments omitted - defaults "
+                  "come from the signature via Gen.v), numeric representations (np.int32/int64 counts, np.float32/int radii and "
+                  "parameters, 0/1 and np.bool_ flags), control nets and custom positions given as tuples / arrays / one-shot "
+                  "generators, the same request issued twice with the first result overwritten, inputs and mesh attribute "
+                  "names unchanged by a call, scales 2^-23 and 2^130, zero-area faces, coincident control points. "
+                  "Defects #36/#37/#38 were repaired by fix: commits; the theorems are about the repaired code.",
     "level_note": "Grid resolution: the model's grid_res is the EXACT nearest integer d-th root (iroot_round, proved to "
                   "satisfy (r-1/2)^d <= n < (r+1/2)^d); the code computes round(np.power(n_pts, 1/box.dim)) in binary64 with "
                   "round-half-even. Their agreement is not a theorem: it is checked on every run for ALL n_pts <= 100000 (quick; "
@@ -75,11 +80,64 @@ def pt3(rng):
     return [dy(rng), dy(rng), dy(rng)]
 
 
-RADII = [0.1, 0.125, 0.03125, 0.5, 0.75, 1.0, 1.0, 2.0, 3.5, 8.0, 0.3, 17.0]
+RADII = [0.1, 0.125, 0.03125, 0.5, 0.75, 1.0, 1.0, 2.0, 3.5, 8.0, 0.3, 17.0, 0.0, 300.0]
+
+
+SCALES = [2.0 ** -23, 2.0 ** 130]     # ~1.2e-7 and ~1.4e39: the property is scale-free
+
+
+def scale_pts(ps, s):
+    return [[x * s for x in p] for p in ps]
+
+
+def decorate(rng, c):
+    """call forms, numeric representations, containers, repeated calls, scale (classes 2-5, 7, 12 of the hardening list)"""
+    k = c["kind"]
+    r = rng.random()
+    if r < 0.2:
+        c["form"] = "pos"
+    elif r < 0.45:
+        c["form"] = "omit"
+    rep = {}
+    if rng.random() < 0.3:
+        rep["n"] = rng.choice(["int64", "int32"])
+    if rng.random() < 0.2:
+        rep["pc"] = rep["normals"] = rng.choice(["flag_int", "flag_np"])
+    if rng.random() < 0.25:
+        rep["radius"] = rng.choice(["int", "f32", "f64"])
+        rep["t"] = rng.choice(["int", "f32", "f64"])
+    if rep:
+        c["rep"] = rep
+    if k in ("curve", "patch", "polylinex", "surfacex") and rng.random() < 0.35:
+        c["net_as"] = rng.choice(["tuple", "array", "gen"])
+    if k == "polylinex" and c.get("custom") is not None and rng.random() < 0.5:
+        c["custom_as"] = rng.choice(["tuple", "array", "gen"])
+    if k == "polylinex" and c.get("n_pts") is None and c.get("form") == "pos":
+        c["form"] = "kw"
+    if k in ("sphere", "ball", "box", "polyline", "surface") and rng.random() < 0.12:
+        c["twice"] = True
+    if rng.random() < 0.08 and not c.get("many"):
+        sc = rng.choice(SCALES)
+        c["scale"] = sc
+        if k in ("sphere", "ball"):
+            c["center"] = [x * sc for x in c["center"]]
+            c["radius"] = c["radius"] * sc
+        elif k == "box":
+            c["p1"] = [x * sc for x in c["p1"]]
+            c["p2"] = [x * sc for x in c["p2"]]
+        elif k in ("polyline", "surface"):
+            c["V"] = scale_pts(c["V"], sc)
+            if c.get("V2"):
+                c["V2"] = scale_pts(c["V2"], sc)
+        elif k in ("curve", "polylinex"):
+            c["P"] = scale_pts(c["P"], sc)
+        else:
+            c["rows"] = [scale_pts(r2, sc) for r2 in c["rows"]]
+    return c
 
 
 def gen_sphere(rng, kind):
-    return {"kind": kind, "center": pt3(rng), "radius": rng.choice(RADII), "n": rng.choice([0, 1, 1, 2, 3, 5, 8]),
+    return {"kind": kind, "center": pt3(rng), "radius": rng.choice(RADII), "n": rng.choice([0, 1, 1, 2, 3, 5, 8] * 3 + [257] if kind == "sphere" else [0, 1, 1, 2, 3, 5, 8]),
             "pc": rng.random() < 0.3, "seed": rng.randrange(1 << 30)}
 
 
@@ -93,7 +151,7 @@ def gen_box(rng):
         p2[k] = p1[k] if rng.random() < 0.5 else p1[k] - 0.5   # empty box
     mode = rng.choice(["uniform", "grid", "grid"])
     if rng.random() < 0.04:
-        mode = rng.choice(["Grid", "random", ""])
+        mode = rng.choice(["Grid", "random", "", "UNIFORM", "Uniform", "grid "])
     pc = rng.random() < 0.3
     if mode == "grid":
         n = rng.choice([0, 1, 2, 3, 4, 5, 7, 8, 9, 12, 16, 20, 27, 30, 64, 81])
@@ -205,6 +263,15 @@ def gen_surface(rng):
     n = rng.choice([0, 1, 2, 3, 5, 8])
     c = {"kind": "surface", "V": V, "F": F, "n": n, "pc": rng.random() < 0.35, "normals": rng.random() < 0.6,
          "seed": rng.randrange(1 << 30)}
+    if shape != "tetra" and rng.random() < 0.15:
+        # a zero-area face (valid combinatorics) on the border edge of the first face; it has no normal, so no normals
+        a0, b0 = 0, 1
+        V = V + [[(x + y) / 2 for x, y in zip(V[a0], V[b0])]]
+        c["V"] = V
+        c["F"] = F + [[b0, a0, len(V) - 1]]
+        c["normals"] = False
+        c["flat_face"] = True
+        return c
     add_scenario(rng, c, lambda V2: not any(tri_degenerate(V2[a], V2[b], V2[cc]) for a, b, cc in F))
     return c
 
@@ -228,7 +295,7 @@ def add_alias(rng, c, patch):
     for _ in range(rng.choice([1, 1, 2, 3])):
         r = rng.random()
         if r < 0.75:
-            t = lambda: rng.choice([0.0, 1.0, 0, 1, 0.5, rng.randint(0, 8) / 8])
+            t = lambda: rng.choice([0.0, 1.0, 0, 1, 0.5, rng.randint(0, 8) / 8, 1.5, -0.25, c.get("t", 0.5), c.get("u", 1.0)])
             pre.append({"at": [t(), t()] if patch else t()})
         else:
             pre.append({"export": [rng.choice([1, 2, 3]), rng.choice([1, 2, 3])] if patch else rng.choice([1, 2, 3])})
@@ -242,6 +309,8 @@ def gen_curve(rng, exact):
     P = [[dy(rng, -64, 64) for _ in range(dim)] for _ in range(deg + 1)]
     if exact and rng.random() < 0.03:
         P = []
+    elif rng.random() < 0.04:
+        P = [list(P[0]) for _ in P]       # all control points coincide
     t = dyadic_param(rng, 16) if exact else rng.choice([rng.random(), rng.random(), 1 / 3, 0.1, 1 - 2 ** -53, 2 ** -40,
                                                         1 + 2 ** -52, -2 ** -60])
     return add_alias(rng, {"kind": "curve", "P": P, "t": t, "exact": exact}, False)
@@ -270,8 +339,10 @@ def gen_polylinex(rng, small=None):
         return {"kind": "polylinex", "P": P, "n_pts": small, "custom": None}
     if r < 0.45:
         return add_alias(rng, {"kind": "polylinex", "P": P, "n_pts": rng.choice([1, 2, 3, 4, 5, 7, 10]), "custom": None}, False)
-    m = rng.choice([1, 2, 3, 4, 6])
+    m = rng.choice([0, 1, 2, 3, 4, 6])
     custom = sorted(rng.randint(0, 16) / 16 for _ in range(m))
+    if m == 0:
+        return {"kind": "polylinex", "P": P, "n_pts": rng.choice([None, 3]), "custom": []}
     if rng.random() < 0.08:
         custom[rng.randrange(m)] = rng.choice([1.25, -0.5])
     n_pts = None if rng.random() < 0.5 else rng.choice([0, 1, 2, 3, 5, 9])
@@ -282,6 +353,8 @@ def gen_surfacex(rng, n1=None, n2=None):
     rows = gen_net(rng, 2)
     if n1 is None:
         n1, n2 = rng.choice([1, 2, 3, 4, 5]), rng.choice([1, 2, 3, 4, 5, 6])
+        if rng.random() < 0.03:
+            n1 = n2 = None          # as_surface() with its default resolutions
         return add_alias(rng, {"kind": "surfacex", "rows": rows, "n1": n1, "n2": n2}, True)
     return {"kind": "surfacex", "rows": rows, "n1": n1, "n2": n2}
 
@@ -340,6 +413,7 @@ def float_case_term(c, obs):
                                                    fl(xs), fl(ys), fl(zs), fl(D[3]["out"]), f3l(obs["out"]))
     if k == "box":
         mode = {"uniform": "MUniform", "grid": "MGrid"}.get(c["mode"], "MOther")
+        mode_term = "None" if (c.get("form") == "omit" and c["mode"] == "uniform") else "(Some %s)" % mode
         d = len(c["p1"])
         us = []
         if "exc" not in obs and mode == "MUniform":
@@ -352,7 +426,7 @@ def float_case_term(c, obs):
         out = dict(obs)
         if "out" in out and mode == "MGrid":
             out["out"] = sorted(out["out"])
-        return "FBox %s %s %s %s %s %s %s" % (mode, coq_bool(c["pc"]), fl(c["p1"]), fl(c["p2"]), zlit(c["n"]), fll(us),
+        return "FBox %s %s %s %s %s %s %s" % (mode_term, coq_bool(c["pc"]), fl(c["p1"]), fl(c["p2"]), zlit(c["n"]), fll(us),
                                              res_term(out, lambda o: fll(o["out"])))
     if k == "polyline":
         V, E = obs["V"], obs["E"]
@@ -392,12 +466,13 @@ def float_case_term(c, obs):
         return "FPatch %s %s %s %s" % (coq_list([fll(r) for r in c["rows"]]), F(c["u"]), F(c["v"]),
                                       res_term(obs, lambda o: fl(o["out"])))
     if k == "polylinex":
-        n_pts = 100 if c["n_pts"] is None else c["n_pts"]
+        n_pts = "None" if c["n_pts"] is None else "(Some %s)" % zlit(c["n_pts"])
         cu = "None" if c["custom"] is None else "(Some %s)" % fl(c["custom"])
-        return "FPolylineX %s %s %s %s" % (fll(c["P"]), zlit(n_pts), cu, res_term(obs, lambda o: "(%s, %s, %s)" % (
+        return "FPolylineX %s %s %s %s" % (fll(c["P"]), n_pts, cu, res_term(obs, lambda o: "(%s, %s, %s)" % (
             fll(o["verts"]), fl(o["t"]), coq_list(["(%s, %s)" % (zlit(a), zlit(b)) for a, b in o["edges"]]))))
     if k == "surfacex":
-        return "FSurfaceX %s %s %s %s" % (coq_list([fll(r) for r in c["rows"]]), zlit(c["n1"]), zlit(c["n2"]),
+        oz = lambda v: "None" if v is None else "(Some %s)" % zlit(v)
+        return "FSurfaceX %s %s %s %s" % (coq_list([fll(r) for r in c["rows"]]), oz(c["n1"]), oz(c["n2"]),
                                          res_term(obs, lambda o: "(%s, %s, %s)" % (
                                              fll(o["verts"]), coq_list(["(%s, %s)" % (F(a), F(b)) for a, b in o["uv"]]),
                                              coq_list([core.zlist(f) for f in o["faces"]]))))
@@ -451,7 +526,7 @@ def in_triangle(p, A, B, C, tol=1e-8):
     w = [x - a for a, x in zip(A, p)]
     n = cross(u, v)
     nn = sum(x * x for x in n)
-    scale = 1 + max(abs(x) for x in A + B + C)
+    scale = max(abs(x) for x in A + B + C) or 1.0
     if nn == 0:
         return min(seg_dist(p, A, B), seg_dist(p, A, C), seg_dist(p, B, C)) <= tol * scale
     if abs(sum(x * y for x, y in zip(n, w))) / math.sqrt(nn) > tol * scale:
@@ -479,7 +554,8 @@ def patch_bernstein(rows, u, v):
 
 
 def hull_box_ok(P, x):
-    return all(min(p[k] for p in P) - TOL <= x[k] <= max(p[k] for p in P) + TOL for k in range(len(x)))
+    S = max(abs(v) for p in P for v in p) or 1.0
+    return all(min(p[k] for p in P) - TOL * S <= x[k] <= max(p[k] for p in P) + TOL * S for k in range(len(x)))
 
 
 def oracle(c, obs):
@@ -488,17 +564,20 @@ def oracle(c, obs):
     exc = obs.get("exc")
     if exc and exc.startswith("other:"):
         return "%s raised an unexpected exception: %s" % (k, exc[6:])
+    if obs.get("inputs_changed"):
+        return "%s modified its inputs (or left attributes behind on the mesh): %s" % (k, obs["inputs_changed"])
     if k in ("sphere", "ball"):
         if exc:
             return "%s raised %s" % (k, exc)
         out, ce, r = obs["out"], c["center"], c["radius"]
+        S = max([abs(r)] + [abs(x) for x in ce]) or 1.0
         if len(out) != c["n"]:
             return "%s returned %d points, %d requested" % (k, len(out), c["n"])
         for p in out:
             d = math.dist(p, ce)
-            if k == "sphere" and not close(d, r):
+            if k == "sphere" and abs(d - r) > TOL * S:
                 return "sphere sample %s is at distance %.12g from the centre, radius is %g" % (p, d, r)
-            if k == "ball" and d > r * (1 + TOL):
+            if k == "ball" and d > r + TOL * S:
                 return "ball sample %s is at distance %.12g > radius %g from the centre" % (p, d, r)
         return None
     if k == "box":
@@ -514,8 +593,9 @@ def oracle(c, obs):
         want = c["n"] if c["mode"] == "uniform" else nearest_root(c["n"], d) ** d
         if len(obs["out"]) != want:
             return "sample_AABB(%s) returned %d points, expected %d" % (c["mode"], len(obs["out"]), want)
+        S = max(abs(x) for x in p1 + p2) or 1.0
         for p in obs["out"]:
-            if len(p) != d or any(not (a - TOL * (1 + abs(a)) <= x <= b + TOL * (1 + abs(b))) for x, a, b in zip(p, p1, p2)):
+            if len(p) != d or any(not (a - TOL * S <= x <= b + TOL * S) for x, a, b in zip(p, p1, p2)):
                 return "sample_AABB(%s) point %s is outside the box %s -> %s" % (c["mode"], p, p1, p2)
         if c["mode"] == "grid" and len({tuple(p) for p in obs["out"]}) != want:
             return "grid samples are not distinct"
@@ -530,7 +610,7 @@ def oracle(c, obs):
             return "sample_polyline raised %s" % exc
         if len(obs["out"]) != c["n"]:
             return "sample_polyline returned %d points, %d requested" % (len(obs["out"]), c["n"])
-        scale = 1 + max(abs(x) for p in V for x in p)
+        scale = max(abs(x) for p in V for x in p) or 1.0
         for p in obs["out"]:
             if min(seg_dist(p, V[a], V[b]) for a, b in E) > 1e-9 * scale:
                 return "polyline sample %s is on no edge" % p
@@ -620,7 +700,9 @@ def oracle(c, obs):
             return "Bezier evaluation raised %s for parameters %s in [0,1]" % (exc, params)
         want = bernstein(P, params[0]) if k == "curve" else patch_bernstein(P, params[0], params[1])
         got = obs["out"]
-        if len(got) != len(want) or any(not close(g, float(w)) for g, w in zip(got, want)):
+        flat0 = P if k == "curve" else [p for row in P for p in row]
+        S = max(abs(x) for p in flat0 for x in p) or 1.0
+        if len(got) != len(want) or any(abs(g - float(w)) > TOL * S for g, w in zip(got, want)):
             return "Bezier value %s differs from the Bernstein polynomial %s at %s" % (got, [float(w) for w in want], params)
         flat = P if k == "curve" else [p for row in P for p in row]
         if not hull_box_ok(flat, got):
@@ -652,11 +734,12 @@ def oracle(c, obs):
                 return "vertex %d carries parameter %s, expected %s" % (i, t, ts[i])
             want = [float(x) for x in bernstein(c["P"], t)]
             want = want + [0.0] * (3 - len(want))
-            if any(not close(a, b) for a, b in zip(vtx, want)):
+            S = max(abs(x) for p in c["P"] for x in p) or 1.0
+            if any(abs(a - b) > TOL * S for a, b in zip(vtx, want)):
                 return "vertex %d = %s is not the curve at t=%s (%s)" % (i, vtx, t, want)
         return None
     if k == "surfacex":
-        n1, n2 = c["n1"], c["n2"]
+        n1, n2 = (20, 20) if c["n1"] is None else (c["n1"], c["n2"])      # documented defaults of as_surface
         if exc:
             return "as_surface(%d,%d) raised %s" % (n1, n2, exc)
         U = [i / (n1 - 1) for i in range(n1)] if n1 > 1 else [0.0] * n1
@@ -671,7 +754,8 @@ def oracle(c, obs):
                 return "as_surface(%d,%d): face %s has an index outside [0,%d)" % (n1, n2, f, nv)
         for i, (vtx, uv) in enumerate(zip(obs["verts"], obs["uv"])):
             want = [float(x) for x in patch_bernstein(c["rows"], uv[0], uv[1])]
-            if any(not close(a, b) for a, b in zip(vtx, want)):
+            S = max(abs(x) for row in c["rows"] for p in row for x in p) or 1.0
+            if any(abs(a - b) > TOL * S for a, b in zip(vtx, want)):
                 return "vertex %d = %s is not the patch at uv=%s" % (i, vtx, uv)
         cells = set()
         for f in obs["faces"]:
@@ -841,16 +925,16 @@ def run(ctx):
     b = ctx.build_props(extra_targets=["theories/C19/RunF.vo", "theories/C19/RunQ.vo"])
     ctx.hygiene(["Lib", "C19"])
 
-    mult = 1 if quick else 25
+    mult = 1 if quick else 20
     cases = load_corpus()
     ncorpus = len(cases)
-    plan = [(lambda: gen_sphere(rng, "sphere"), 90), (lambda: gen_sphere(rng, "ball"), 110), (lambda: gen_box(rng), 170),
-            (lambda: gen_polyline(rng), 110), (lambda: gen_surface(rng), 110), (lambda: gen_curve(rng, True), 130),
-            (lambda: gen_curve(rng, False), 50), (lambda: gen_patch(rng, True), 70), (lambda: gen_patch(rng, False), 30),
-            (lambda: gen_polylinex(rng), 70), (lambda: gen_surfacex(rng), 60)]
+    plan = [(lambda: gen_sphere(rng, "sphere"), 70), (lambda: gen_sphere(rng, "ball"), 80), (lambda: gen_box(rng), 140),
+            (lambda: gen_polyline(rng), 100), (lambda: gen_surface(rng), 100), (lambda: gen_curve(rng, True), 120),
+            (lambda: gen_curve(rng, False), 40), (lambda: gen_patch(rng, True), 60), (lambda: gen_patch(rng, False), 30),
+            (lambda: gen_polylinex(rng), 70), (lambda: gen_surfacex(rng), 50)]
     for g, cnt in plan:
-        cases += [g() for _ in range(cnt * mult)]
-    for _ in range(4 * min(mult, 4)):
+        cases += [decorate(rng, g()) for _ in range(cnt * mult)]
+    for _ in range(3 * min(mult, 4)):
         cases += [gen_many_polyline(rng), gen_many_surface(rng)]
     # every small pair of resolutions, equal or not (exhaustive sweep: support, the theorem is unbounded)
     lim = 5 if quick else 9
@@ -879,6 +963,12 @@ def run(ctx):
             ctx.count("%s radius %s 1" % (k, "<" if c["radius"] < 1 else (">" if c["radius"] > 1 else "=")))
         if k == "surfacex":
             ctx.count("as_surface n1%sn2" % ("=" if c["n1"] == c["n2"] else "!="))
+        ctx.count("call form: " + c.get("form", "kw"))
+        for q, v in (c.get("rep") or {}).items():
+            ctx.count("representation %s=%s" % (q, v))
+        for q in ("net_as", "custom_as", "twice", "scale", "flat_face"):
+            if c.get(q):
+                ctx.count("%s=%s" % (q, c[q] if q != "scale" else ("2^-23" if c[q] < 1 else "2^130")))
         if c.get("alias"):
             ctx.count("%s after in-place edit of returned points" % k)
         if c.get("many"):
@@ -891,7 +981,7 @@ def run(ctx):
             ctx.count("%s scenario: %s" % (k, "fresh mesh" if not c.get("pre") else
                                            "attributes %s, then vertices %s" % ({"compute": "computed persistently", "junk": "pre-existing with arbitrary values"}[c["pre"]],
                                                                                  "moved" if c.get("V2") else "unchanged")))
-        nontrivial = (c.get("n", 1) > 0 and c.get("n1", 2) >= 2 and c.get("n2", 2) >= 2
+        nontrivial = (c.get("n", 1) > 0 and (c.get("n1", 2) or 20) >= 2 and (c.get("n2", 2) or 20) >= 2
                       and len(c.get("P", [0, 0])) >= 2 and "exc" not in o)
         ctx.case_seen(c, nontrivial=nontrivial,
                       sample={"request": {q: v for q, v in c.items() if q not in ("V", "F", "E")},
